@@ -1,6 +1,7 @@
 import ElvProofs.C19.Inv
 import ElvProofs.C19.Replay
 import ElvProofs.C19.Interp
+import ElvProofs.C19.Nested
 /-!
 C19 — interrupting evaluation at any moment is handled cleanly.
 
@@ -108,6 +109,52 @@ theorem C19_sequential_interrupt (t : Nat) (p : Prog) :
     | ok => rfl
     | int => have := ha.mpr hr; simp [hc] at this
 
+/-! ### nested and concurrent constructs, asynchronous interrupt (`ElvModel/C19/Nested.lean`)
+
+Programs: chunks of pipelines whose forms run concurrently (`par`), loops, closure calls,
+try/finally, `sleep`, `peach` with overlapping callbacks — nested arbitrarily.  The interrupt is
+delivered at an arbitrary time `T`; every interleaving is an assignment of time stamps
+(`evP T p t0 r t1`: started at `t0`, the chunk can end at `t1` with result `r`). -/
+
+/-- (2) at EVERY nesting depth, in every concurrent branch, for every delivery time and every
+interleaving: a chunk (the top-level one evaluated by `Eval`, a closure body, a loop body, a
+`peach` callback, a form of a pipeline) returns the interrupted exception if and only if the
+interrupt had been delivered by the time the chunk ended (its final check, or the check / form that
+aborted it).  In particular `Eval` never returns OK once the interrupt was delivered before the
+top-level chunk ended, never returns an exception that is not `interrupted`, and returns OK when
+the interrupt is never delivered. -/
+theorem C19_nested_interrupt (T : Option Nat) (p : Chunk) (t0 t1 : Nat) (r : R) (h : evP T p t0 r t1) :
+    t0 ≤ t1 ∧ (r = .int ↔ can T t1 = true) ∧ (r = .ok ↔ can T t1 = false) ∧ (T = none → r = .ok) := by
+  obtain ⟨h1, h2⟩ := evP_agree T p t0 r t1 h
+  refine ⟨h1, h2, ?_, ?_⟩
+  · cases r <;> cases hc : can T t1 <;> simp_all
+  · intro hT; subst hT
+    cases r with
+    | ok => rfl
+    | int => have := h2.mp rfl; simp [can] at this
+
+/-- A single command (pipeline form) — `sleep`, a loop, a closure call, try/finally, a nested
+multi-form pipeline, `peach` — raises the interrupted exception only if the interrupt has been
+delivered by the time it ends: no spurious `interrupted`, at any depth. -/
+theorem C19_nested_no_spurious_interrupt (T : Option Nat) (c : Cmd) (t0 t1 : Nat) (r : R)
+    (h : evC T c t0 r t1) : t0 ≤ t1 ∧ (r = .int → can T t1 = true) :=
+  evC_sound T c t0 r t1 h
+
+/-- The semantics is not empty: for every program, every start time and every delivery time the
+executable schedule `runP` (everything back to back) is one of the executions. -/
+theorem C19_nested_schedule_exists (T : Option Nat) (p : Chunk) (t : Nat) :
+    evP T p t (runP T p t).1 (runP T p t).2 :=
+  runP_ev T p t
+
+/-- The sequential interpreter `exec` of `C19_sequential_interrupt` (the one the differential
+`seq` ops compare with the real interpreter) is an instance of the nested semantics: every run of
+it, with the interrupt delivered synchronously at the `t`-th step, is an execution of the embedded
+program with delivery time `t` on the clock that counts steps. -/
+theorem C19_nested_extends_sequential (t : Nat) (p : Prog) :
+    evP (syncT t) (emb p) 0 (exec t p {}).1 (exec t p {}).2.steps := by
+  have h : Wn t {} := ⟨by unfold W; left; simp; omega, by simp⟩
+  exact exec_ev t p {} h
+
 /-! ### non-vacuity -/
 
 /-- `for i [(range 3)] { -vstep; try { -vstep } finally { -vstep } }` interrupted at step 4 -/
@@ -139,3 +186,42 @@ example : ∃ s, Run [.cbegin true, .pstart 1 false false, .pform 1 false, .slee
     .pend 1 false, .cexit true false .cok, .cancel, .ret .ok] s ∧ s.result = some .ok ∧
     s.topExit = some (.cok, false) :=
   ⟨_, run_of_replay rfl, rfl, rfl⟩
+
+/-- `peach {|_| for _ [1 2] { { -vstep } | { sleep; -vstep } } } [1 2]`, interrupt delivered at
+time 5 (inside the first callback's second loop round): the executable schedule ends `interrupted`;
+delivered at time 50 (after the end) or never: OK -/
+def C19.sampleN : Chunk :=
+  .pipe (.peach 2 (.pipe (.loop 2 (.pipe (.par (.call (.pipe .step .done))
+    (.call (.pipe .sleep (.pipe .step .done)))) .done)) .done)) .done
+
+example : runP (some 5) C19.sampleN 0 = (.int, 8) ∧ runP (some 50) C19.sampleN 0 = (.ok, 46) ∧
+    runP none C19.sampleN 0 = (.ok, 46) := by decide
+
+example : evP (some 5) C19.sampleN 0 .int 8 := by
+  have h := C19_nested_schedule_exists (some 5) C19.sampleN 0
+  rwa [show runP (some 5) C19.sampleN 0 = (.int, 8) by decide] at h
+
+/-- a genuinely overlapping execution of `sleep | -vstep`: both forms start at time 1, the step
+ends at 2, the interrupt arrives at 2, the sleep notices it and ends at 3; the pipeline's error is
+`interrupted` and so is the chunk's (hypotheses of `C19_nested_interrupt` /
+`C19_nested_no_spurious_interrupt` with real concurrency) -/
+example : evP (some 2) (.pipe (.par .sleep .step) .done) 0 .int 3 := by
+  simp only [evP]
+  refine ⟨0, Nat.le_refl _, Or.inr ⟨by decide, .int, 3, ?_, Or.inl ⟨by simp, rfl, rfl⟩⟩⟩
+  simp only [evC]
+  exact ⟨1, .int, 3, 1, .ok, 2, by omega, by omega, by omega, by omega,
+    ⟨by omega, fun _ => by decide⟩, ⟨by omega, rfl⟩, rfl⟩
+
+/-- the same pipeline when the interrupt arrives only after both forms and the final check: OK -/
+example : evP (some 9) (.pipe (.par .sleep .step) .done) 0 .ok 4 := by
+  simp only [evP]
+  refine ⟨0, Nat.le_refl _, Or.inr ⟨by decide, .ok, 3, ?_, Or.inr ⟨rfl, by omega, by decide⟩⟩⟩
+  simp only [evC]
+  exact ⟨1, .ok, 3, 1, .ok, 2, by omega, by omega, by omega, by omega,
+    ⟨by omega, fun h => by cases h⟩, ⟨by omega, rfl⟩, rfl⟩
+
+/-- the sequential sample of `C19_sequential_interrupt` seen through the nested semantics -/
+example : evP (syncT 4) (emb (.loop 3 (.step (.tryFinally (.step .done) (.step .done) .done)) .done)) 0 .int 4 := by
+  have h := C19_nested_extends_sequential 4 (.loop 3 (.step (.tryFinally (.step .done) (.step .done) .done)) .done)
+  rwa [show exec 4 (.loop 3 (.step (.tryFinally (.step .done) (.step .done) .done)) .done) {} =
+    (.int, { steps := 4, cancelled := true }) by decide] at h
